@@ -123,9 +123,10 @@ CLAIMS = [
                 "K2-validated replica. Props/C01Lin.lean: the linearizability oracle used on recorded histories is a verified checker (check_sound, "
                 "check_complete, applySpec_is_specOf: its step function is specOf); the driver decides with it every history the harness rejects and a sample "
                 "of those it accepts. Props/C01Sync.lean: 29 decide-theorems on the synchronisation skeletons regenerated from the source text (T-E). "
-                "STILL ASSUMED: that the block of code between lock and unlock, run atomically, computes the section function of Model/Conc.lean and "
-                "touches only locations guarded by its stripes (tied by K2 - the sections are built from the primitive functions of the sequential replica, which K2 "
-                "compares cell by cell - and by K3's lockset monitor on the code; not proved); helper threads are not part of Conc; "
+                "K3(ii): every sampled execution of the real table is replayed hold by hold (commit order) as a schedule of Model/Conc sections with the parameters the "
+                "code used (guarded hooks report the run_cuckoo snapshot, the hop records, the fast_double request); every answer and the final FULL-STATE digest must "
+                "coincide (6,864 executions / 564,531 sections per quick run). NOT PROVED about the C++ text: that the code of one hold computes the section function and "
+                "stays within its stripes - this is what K3(ii) and the lockset monitor check on every run (model side: Props/C03Frame.lean, C03Comm.lean); helper threads are not part of Conc; "
                 "locked_table sections are atomic steps in Props/C06Conc.lean.",
         "design_ref": "DESIGN.md 6/C01, 12",
         "note": "Trusted: Lean kernel; hooks + baton scheduler + C++ linearizability search (K3); the scheduler yields sequentially consistent executions only; "
@@ -145,7 +146,8 @@ CLAIMS = [
                 "serial, hold-by-hold execution returns, so n read-modify-write updates of one key are all applied and no reader sees a mixture. "
                 "Props/C03Frame.lean: on the model, a section that locks the stripes of buckets B writes nothing outside those stripes "
                 "(rehashLock/lockSec/hopSec/lookupSec/insertTrySec/insertLastSec_writes_within, schedule_writes_within, for every table satisfying Inv and any "
-                "stale parameters) - the premise of the reduction; read footprints are not proved. PARTIAL: the data-race "
+                "stale parameters) - the premise of the reduction; Props/C03Comm.lean: read footprints (*_read_footprint) and sections_commute - two sections on "
+                "disjoint stripes yield the same table and answers in either order (swap_adjacent_disjoint, perm_disjoint_schedule). PARTIAL: the data-race "
                 "clause in the C++ memory-model sense is NOT a theorem (no hardware memory model in Lean); it is monitored by K4 (free-running threads "
                 "under ThreadSanitizer, guard off). One race is a genuine open finding (F8: unsynchronised read of the lock-array list vs append) and "
                 "is reported as KNOWN-FINDING; any other ThreadSanitizer report is a violation.",
